@@ -53,6 +53,8 @@ def gen_case(ctx, stream, idx):
                        with_return=False, doc_kinds=("plain", "plain", "stop"))
     # Optional[..] columns carry no non-None default in this domain
     for p in ir["params"].values():
+        if p["typ"].startswith("Literal[") and r.random() < 0.3:
+            p["typ"] = "Optional[%s]" % p["typ"]  # a nullable Enum column
         if p["typ"].startswith("Optional["):
             p.pop("default", None)
     mode = r.choice(("declared", "declared", "candidate", "two_candidates", "none", "id_plain"))
